@@ -12,7 +12,7 @@ CONSTANTS
   WaitTimeouts = {1000000}
   Dto = 1000000
   Waiters = {"w1"}
-  Depth = 7
+  Depth = 6
   MaxTicks = 0
   MaxClears = 1
   MaxWaits = 1
